@@ -154,6 +154,13 @@ pub fn gen_case(rng: &mut Rng, corpus: &[String]) -> Option<Case01> {
             patterns[k] = variant;
         }
     }
+    // An empty pattern among the others (an empty line in a pattern file):
+    // it matches every line on its own, but not under -x / -w, where the
+    // patterns listed after it still count.
+    if patterns.len() >= 2 && rng.chance(1, 6) {
+        let at = rng.below(patterns.len());
+        patterns[at] = String::new();
+    }
     // Cheap pre-check so that rejected patterns do not cost an input.
     if oracle::build_matcher(&patterns, &flags).is_err() {
         return Some(Case01 { patterns, flags, input: vec![] });
